@@ -89,6 +89,10 @@ let handler_fun name epoch =
   | "pyc-zero-mtime" -> Some ((fun x -> pyc_zero_mtime x), (fun _ -> false))
   | _ -> None
 
+let ext_of_handler = function
+  | "ar" -> "a" | "gzip" -> "gz" | "javadoc" -> "html" | "pyc" | "pyc-zero-mtime" -> "pyc" | "zip" -> "zip" | "jar" -> "jar" | _ -> "?"
+let bytes_of_ocaml (s : Stdlib.String.t) = List.init (String.length s) (fun i -> n_of_int (Char.code s.[i]))
+
 let fs_mode file =
   let ic = open_in file in
   let nodes = ref [] in
@@ -103,6 +107,35 @@ let fs_mode file =
                   { i_kind = kind_of_string k; i_data = unhex data; i_mode = n_of_int (int_of_string mode);
                     i_uid = n_of_int (int_of_string uid); i_gid = n_of_int (int_of_string gid);
                     i_mtime = z_of_string mtime; i_nlink = n_of_int (int_of_string nlink) }) :: !nodes
+      | "WALK" :: hnames :: epoch :: check :: prof :: umask :: uid :: gid :: canchown :: now :: entries ->
+        let epoch = if epoch = "-" then None else Some (z_of_string epoch) in
+        let nl = List.rev !nodes in
+        let names p = (try let (_, i, _) = List.find (fun (q, _, _) -> q = p) nl in Some (n_of_int i) with Not_found -> None) in
+        let inodes j = (try let (_, _, n) = List.find (fun (_, i, _) -> n_of_int i = j) nl in Some n with Not_found -> None) in
+        let next = 1 + List.fold_left (fun a (_, i, _) -> max a i) 0 nl in
+        let f0 = { names = names; inodes = inodes; next_ino = n_of_int next } in
+        let env = { e_umask = n_of_int (int_of_string umask); e_uid = n_of_int (int_of_string uid);
+                    e_gid = n_of_int (int_of_string gid); e_can_chown = (canchown = "1"); e_now = z_of_string now } in
+        let mode = if check = "1" then Check else Real in
+        let prof = if prof = "release" then Release else Debug in
+        let hs = List.filter_map (fun hn -> match handler_fun hn epoch with
+                   | Some (h, eager) -> Some { hd_ext = bytes_of_ocaml (ext_of_handler hn); hd_eager = eager; hd_fun = h }
+                   | None -> None) (if hnames = "-" then [] else String.split_on_char ',' hnames) in
+        let ents = List.map unhex entries in
+        (match walk env None mode prof hs (init_wstate f0) ents with
+         | None -> Printf.printf "%s PANIC\n%s END\n" !id !id
+         | Some w ->
+           let st = w.w_stats in
+           Printf.printf "%s STATS %d %d %d %d %d %d %d\n" !id (int_of_n st.st_dirs) (int_of_n st.st_files) (int_of_n st.st_processed)
+             (int_of_n st.st_replaced) (int_of_n st.st_rewritten) (int_of_n st.st_mis) (int_of_n st.st_errors);
+           let show f q =
+             match obs f q with
+             | Some (i, n) -> Printf.sprintf "%d %s %d %d %d %d %d %s" (int_of_n i) (string_of_kind n.i_kind) (int_of_n n.i_mode)
+                                (int_of_n n.i_uid) (int_of_n n.i_gid) (int_of_z n.i_mtime) (int_of_n n.i_nlink) (hex n.i_data)
+             | None -> "ABSENT" in
+           let paths = List.sort_uniq compare (List.map (fun (q, _, _) -> q) nl @ List.map tmp_path ents) in
+           List.iter (fun q -> Printf.printf "%s OBS %s %s\n" !id (hex q) (show w.w_sim.s_fs q)) paths;
+           Printf.printf "%s END\n" !id)
       | ["RUN"; hname; epoch; check; prof; target; fkind; focc; fer; umask; uid; gid; canchown; now] ->
         let epoch = if epoch = "-" then None else Some (z_of_string epoch) in
         let nl = List.rev !nodes in
@@ -188,6 +221,9 @@ let cfg_mode file =
             | None -> Printf.printf "%s INITERR %s\n" id (String.concat "," (List.map ocaml_string_of l))
             | Some hs -> Printf.printf "%s OK %s | %s | %s\n" id (String.concat "," (List.map ocaml_string_of l)) (if strict then "strict" else "lenient")
                            (String.concat "," (List.map ocaml_string_of hs))))
+      | "B" :: id :: brp :: root :: args ->
+        let root = if root = "-" then None else Some (if root = "E" then [] else unhex root) in
+        Printf.printf "%s %s\n" id (if brp_check (brp = "1") root (List.map unhex args) then "PASS" else "ABORT")
       | ["V"; id; check; brp; errors; mis; repl; rew] ->
         let n s = n_of_int (int_of_string s) in
         Printf.printf "%s %s\n" id (if main_verdict (check = "1") (brp = "1") (n errors) (n mis) (n repl) (n rew) then "FAIL" else "PASS")
